@@ -743,24 +743,53 @@ func (g *G) mapIter(c ctx) []Stmt {
 		m.Vals = append(m.Vals, &IntLit{V: int64(g.R.Intn(9))})
 	}
 	acc := g.fresh("s")
+	// the loop variables are bound in the loop's own scope: now and then they carry the
+	// names of outer bindings (or of nothing), and both names are read back after the loop
+	mk, mv := "mk", "mv"
+	if g.R.Intn(2) == 0 {
+		a, b := g.pick(g.pool), g.pick(g.pool)
+		if a != b {
+			g.feat("forin-map-vars-shadow")
+			mk, mv = a, b
+		}
+	}
 	body := []Stmt{
-		&ExprStmt{X: &Call{Fn: "pv", Args: []Expr{&Name{N: "mk"}, &Name{N: "mv"}}}},
-		&Assign{LHS: []Expr{&Name{N: acc}}, RHS: []Expr{&Binary{Op: "+", L: &Name{N: acc}, R: &Name{N: "mv"}}}},
+		&ExprStmt{X: &Call{Fn: "pv", Args: []Expr{&Name{N: mk}, &Name{N: mv}}}},
+		&Assign{LHS: []Expr{&Name{N: acc}}, RHS: []Expr{&Binary{Op: "+", L: &Name{N: acc}, R: &Name{N: mv}}}},
+	}
+	switch g.R.Intn(6) {
+	case 0:
+		body = append(body, &Continue{})
+	case 1:
+		body = append(body, &If{Cond: &Binary{Op: ">", L: &Name{N: mv}, R: &IntLit{V: 100}}, Then: []Stmt{&Break{}}})
+	}
+	rb := func(n string) Stmt {
+		return &ExprStmt{X: &Call{Fn: "rd", Args: []Expr{&StrLit{V: n}, &Coalesce{L: &Name{N: n}, R: &StrLit{V: "<undef>"}}}}}
 	}
 	return []Stmt{
 		&Assign{LHS: []Expr{&Name{N: acc}}, RHS: []Expr{&IntLit{V: 0}}},
 		&ExprStmt{X: &Call{Fn: "mb", Args: []Expr{&IntLit{V: id}}}},
-		&ForIn{Vars: []string{"mk", "mv"}, X: m, Body: body},
+		&ForIn{Vars: []string{mk, mv}, X: m, Body: body},
 		&ExprStmt{X: &Call{Fn: "me", Args: []Expr{&IntLit{V: id}}}},
 		&ExprStmt{X: &Call{Fn: "rd", Args: []Expr{&StrLit{V: acc}, &Name{N: acc}}}},
+		rb(mk), rb(mv),
 	}
 }
 
 func (g *G) switchStmt(c ctx) []Stmt {
 	g.feat("switch")
+	if g.R.Intn(10) == 0 {
+		return g.switchLiveSubject()
+	}
 	s := &Switch{X: g.IntExpr(1)}
 	if g.failingHeader() {
 		s.X = g.failExpr()
+	}
+	// a boolean or nil subject: nil equals only nil, false is not nil
+	boolSubject := g.R.Intn(8) == 0
+	if boolSubject {
+		g.feat("switch-bool-or-nil-subject")
+		s.X = []Expr{&BoolLit{V: false}, &BoolLit{V: true}, &NilLit{}}[g.R.Intn(3)]
 	}
 	nc := g.R.Intn(4)
 	ic := g.inner(c)
@@ -768,6 +797,11 @@ func (g *G) switchStmt(c ctx) []Stmt {
 		cs := Case{}
 		for j := 1 + g.R.Intn(2); j > 0; j-- {
 			var ce Expr = &IntLit{V: int64(g.R.Intn(6))}
+			if boolSubject {
+				ce = []Expr{&NilLit{}, &BoolLit{V: false}, &BoolLit{V: true}, &Call{Fn: "pv", Args: []Expr{&IntLit{V: g.probeID()}, &NilLit{}}}}[g.R.Intn(4)]
+				cs.Exprs = append(cs.Exprs, ce)
+				continue
+			}
 			switch g.R.Intn(8) {
 			case 0:
 				// case expressions are compared in order, each evaluated when its turn comes
@@ -799,6 +833,25 @@ func (g *G) switchStmt(c ctx) []Stmt {
 		s.Default = g.scoped(func() []Stmt { return g.block(ic, g.maybeEmpty(1+g.R.Intn(2))) })
 	}
 	return []Stmt{s}
+}
+
+// switchLiveSubject: the subject is read once, before the case expressions run: a case
+// expression that overwrites the slot the subject was read from does not change it
+func (g *G) switchLiveSubject() []Stmt {
+	g.feat("switch-subject-then-mutating-case")
+	l, mf := g.fresh("sw"), g.fresh("sm")
+	return []Stmt{
+		&Assign{LHS: []Expr{&Name{N: l}}, RHS: []Expr{&ListLit{Elems: []Expr{&IntLit{V: 1}, &IntLit{V: 5}}}}},
+		&ExprStmt{X: &FuncLit{Name: mf, Body: []Stmt{
+			&Assign{LHS: []Expr{&Index{X: &Name{N: l}, I: &IntLit{V: 0}}}, RHS: []Expr{&IntLit{V: 2}}},
+			&ExprStmt{X: g.p()}, &Return{Exprs: []Expr{&IntLit{V: 2}}}}}},
+		&Switch{X: &Index{X: &Name{N: l}, I: &IntLit{V: 0}}, Cases: []Case{
+			{Exprs: []Expr{&Call{Fn: mf}}, Body: []Stmt{&ExprStmt{X: g.p()}}},
+			{Exprs: []Expr{&IntLit{V: 1}}, Body: []Stmt{&ExprStmt{X: g.p()}}},
+			{Exprs: []Expr{&IntLit{V: 2}}, Body: []Stmt{&ExprStmt{X: g.p()}}}},
+			HasDefault: true, DefaultPos: 3, Default: []Stmt{&ExprStmt{X: g.p()}}},
+		&ExprStmt{X: &Call{Fn: "rd", Args: []Expr{&StrLit{V: l}, &Name{N: l}}}},
+	}
 }
 
 func (g *G) tryStmt(c ctx) []Stmt {
